@@ -221,6 +221,52 @@ async fn ensure_resolves_an_existing_tuple_instead_of_duplicating_it() {
 }
 
 #[tokio::test]
+async fn one_block_naming_a_new_tuple_twice_resolves_it_once() {
+    // Read-your-writes (§32.1) applies to identity resolution too. The second
+    // clause cannot find the tuple in the store — the first has only staged
+    // it — and minting another Proposition for it would put two rows behind
+    // one unique `tuple_key`, which the store refuses halfway through the
+    // commit's writes.
+    let nexus = nexus("ensure_twice").await;
+    let result = ok(
+        &nexus,
+        r#"MUTATE {
+            CREATE CONCEPT ?alice { TYPE "Person" NAME "Alice" }
+            CREATE CONCEPT ?dark { TYPE "Preference" NAME "Dark mode" }
+            ENSURE PROPOSITION ?p (?alice, "prefers", ?dark)
+            ENSURE PROPOSITION ?again (?alice, "prefers", ?dark) EXPECT VERSION 0
+            ASSERT ?a (?alice, "prefers", ?dark) { by: ?alice, mode: "stated" }
+        }"#,
+    )
+    .await;
+
+    let proposition = handle(&result, "p");
+    assert_eq!(handle(&result, "again"), proposition);
+    let Element::Assertion(claim) = nexus
+        .store
+        .get_element(handle(&result, "a"))
+        .await
+        .unwrap()
+    else {
+        panic!("?a must be an Assertion");
+    };
+    assert_eq!(claim.proposition_id, proposition.to_string());
+    assert_eq!(
+        ok(
+            &nexus,
+            "FIND(COUNT(?p)) WHERE { ?p PROPOSITION (?s, ?pr, ?o) }"
+        )
+        .await,
+        json!([1])
+    );
+    let Element::Proposition(row) = nexus.store.get_element(proposition).await.unwrap() else {
+        panic!("must be a Proposition");
+    };
+    assert_eq!(row.version, 1, "however many clauses named it");
+    assert_eq!(nexus.store.sweep_pending().await.unwrap(), 0);
+}
+
+#[tokio::test]
 async fn correcting_a_claim_supersedes_it_rather_than_rewriting_it() {
     // Spec §2.1 and §76: an Assertion's epistemic payload is historically
     // immutable. What was once believed, and by whom, has to survive.
